@@ -220,6 +220,10 @@ FamC08n(dummy) ==
      c \in {"named", "unnamed"},
      P \in {LET S(b, k) == StepC08n(lv, b, k) IN Build(Kind(FALSE, t, TRUE), "res", pr, S, NoName, ExprInit, "none") :
               t \in BOOLEAN, lv \in 1 .. 3, pr \in {<<1>>, <<1, 1>>, <<2, 1>>, <<1, 2, 2>>}}
+         \* `nestfn`: the nested invocation stands in one helper function that callbacks of several branches call, i.e. one
+         \* call site is run by differently named threads (generator flag)
+         \cup {LET S(b, k) == <<ItemN(IdOf(b, k, 1), "map", "closure", 1)>> IN Build(Kind(FALSE, t, TRUE), "res", pr, S, NoName, ExprInit, "none") @@ [nestfn |-> TRUE] :
+                 t \in BOOLEAN, pr \in {<<1, 1>>, <<2, 1>>, <<1, 2, 2>>}}
          \cup {NestInit(Build(Kind(FALSE, t, TRUE), "res", pr, StepC08, NoName, ExprInit, "none"), bs) :
                  t \in BOOLEAN, pr \in {<<1>>, <<1, 1>>, <<2, 1>>, <<1, 2, 2>>}, bs \in {<<0>>, <<1>>, <<0, 1>>}}}
 
